@@ -57,7 +57,9 @@ Definition d_op (v : val) : op :=
   | L [I 7] => ORecvMedia
   | L [I 8; I 0; s] => ORaise (RHTTPError (dZ s))
   | L [I 8; I 1; s] => ORaise (RHTTPStatus (dZ s))
+  | L [I 8; I 3; s] => ORaise (RDisc (if Z.eqb (dZ s) 0 then None else Some (dZ s)))
   | L [I 8; _; _] => ORaise RGeneric
+  | L [I 10] => ORecvCancelled
   | _ => OAdvance
   end.
 
@@ -88,11 +90,13 @@ Definition d_exc (v : val) : exc :=
 Definition v_value (x : value) : val :=
   match x with
   | VNone => L [I 0] | VText n => L [I 1; vN n] | VBytes n => L [I 2; vN n] | VMedia n => L [I 3; vN n]
+  | VCancelled => L [I 4]
   end.
 
 Definition d_value (v : val) : value :=
   match v with
   | L [I 1; n] => VText (dN n) | L [I 2; n] => VBytes (dN n) | L [I 3; n] => VMedia (dN n)
+  | L [I 4] => VCancelled
   | _ => VNone
   end.
 
